@@ -9,7 +9,9 @@ PROPS_OF = [(r"bin_op/math/|bin_op/shift|bin_op/bitwise|prefix_op|bin_op/assign"
             (r"bin_op/assign", ["C13"]),
             (r"control_flow|loop\.rs|block\.rs|function\.rs|set\.rs", ["C12", "C07", "C04"]),
             (r"at\.rs|slicing|stdlib\.rs|array_repeat|instruction/array|instruction/tuple", ["C09", "C04", "C07"]),
-            (r"variable\.rs|variable/array", ["C19"])]
+            (r"variable\.rs|variable/array", ["C19"]),
+            (r"reduce|partition", ["C11", "C07"]),
+            (r"function/anonymous|function/declaration", ["C04"])]
 ids = sys.argv[1:] or sorted(os.listdir(os.path.join(V, "seeded_harmless")), key=lambda x: int(x[1:]))
 jobs = []
 for rid in ids:
